@@ -226,8 +226,11 @@ _quick_cache: dict[tuple, bool] = {}
 _keep_alive: list = []
 
 
+HEAVY_FUNCS: set[str] = set()
+
+
 def _is_light(e) -> bool:
-	"""No quantifiers: cheap for an in-process feasibility probe."""
+	"""No quantifiers (and no recursive function whose definition has quantifiers): cheap for an in-process feasibility probe."""
 	i = e.get_id()
 	r = _light_cache.get(i)
 	if r is not None:
@@ -245,6 +248,9 @@ def _is_light(e) -> bool:
 			ok = False
 			break
 		if z3.is_app(x):
+			if HEAVY_FUNCS and x.decl().name() in HEAVY_FUNCS:
+				ok = False
+				break
 			stack.extend(x.children())
 	_light_cache[i] = ok
 	_keep_alive.append(e)
